@@ -1983,24 +1983,11 @@ class ExpressionEvaluator(Parser):
                     base = 8
 
             # Strip suffix (if present)
-            suffix = None
-            suffixes = [
-                "ull",
-                "ULL",
-                "ul",
-                "UL",
-                "ll",
-                "LL",
-                "u",
-                "U",
-                "l",
-                "L",
-            ]
-            for s in suffixes:
-                if value.endswith(s):
-                    suffix = s
-                    value = value[: -len(s)]
-                    break
+            # The u and l/ll parts of a suffix may come in either order and
+            # in either case (e.g. 1lu, 1uLL).
+            digits = value.rstrip("uUlL")
+            suffix = value[len(digits) :]
+            value = digits
 
             # Convert to decimal and then to integer with correct sign
             # Preprocessor always uses 64-bit arithmetic!
